@@ -283,7 +283,16 @@ def main(argv: T.List[str]) -> int:
     try:
         mod = importlib.import_module(f"checks.{prop.lower()}")
         ctx = Ctx(prop, args.repo, args.tier, seed)
-        mod.run(ctx)
+        stopped_early = None
+        try:
+            mod.run(ctx)
+        except AnalysisError as ex_run:
+            # a rule gave up on an unrecognised shape.  Findings that earlier rules had already decided stand (each names
+            # a construct that violates its rule); without any, the run is a refusal (exit 2).
+            known_now = {k["key"] for k in load_known() if k.get("property") == prop and k.get("status") == "known"}
+            if not any(f.key not in known_now for f in ctx.findings):
+                raise
+            stopped_early = str(ex_run)
         if "bumpver" in sys.modules:
             raise AnalysisError("bumpver was imported during a static check")
         known = [k for k in load_known() if k.get("property") == prop]
@@ -323,6 +332,8 @@ def main(argv: T.List[str]) -> int:
                 for fl in selftest["failures"]:
                     print(f"ANALYSIS-ERROR selftest: {fl}")
                 return 2
+        if stopped_early:
+            print(f"  note: the analysis stopped early ({stopped_early}); the findings below were decided before that")
         if new:
             os.makedirs(os.path.join(EVIDENCE_DIR, "replay"), exist_ok=True)
             rp = os.path.join(EVIDENCE_DIR, "replay", f"{prop}.json")
